@@ -232,6 +232,17 @@ fn gen_scn(rng: &mut Rng, quick: bool) -> Scn {
         }
         templates.push(t);
     }
+    // a quarter of the scenarios also have a deeply nested template (24..64 blocks) that several
+    // threads parse and render at once (seeded change C20-l: a depth guard counting in shared state)
+    let mut nt = nt;
+    let deep_t = if rng.chance(1, 4) {
+        let d = 24 + rng.below(41);
+        templates.push(vec![gen::Node::Snippet(gen::deep_source(rng, d))]);
+        nt += 1;
+        Some(nt - 1)
+    } else {
+        None
+    };
     let names = partials.names();
     let datas = (0..nd)
         .map(|_| {
@@ -254,8 +265,17 @@ fn gen_scn(rng: &mut Rng, quick: bool) -> Scn {
         let nops = 1 + rng.below(if nthreads > 8 { 2 } else { 4 });
         let mut ops = vec![];
         for _ in 0..nops {
-            let t = rng.below(nt);
+            let mut t = rng.below(nt);
             let d = rng.below(nd);
+            if let Some(dt) = deep_t {
+                if rng.chance(1, 2) {
+                    t = dt;
+                    if rng.chance(2, 3) {
+                        ops.push(TOp::ParseRender { t, d, clone: rng.chance(1, 2) });
+                        continue;
+                    }
+                }
+            }
             ops.push(match rng.below(10) {
                 0 | 1 => TOp::ParseRender { t, d, clone: rng.chance(1, 2) },
                 2 => TOp::ParseCorrupt(rng.below(gen::CORRUPT.len())),
@@ -515,7 +535,7 @@ impl Engine for C20 {
     fn assumptions(&self) -> Vec<String> {
         vec![
             "threads interleave only at scheduling points the simulator owns (sink write, source read, data lookup, element boundaries of render and parse, lock admission/release); memory-model-level races inside one element are out of reach".into(),
-            "the only lock given to the simulator is the lazy cache mutex (hook H1); a task that blocks on any other primitive is detected by a watchdog, marked lost and the run continues (counter sched.lost_task_events, 0 on the unchanged tree)".into(),
+            "with std::sync interposition on (see notes) every Mutex/RwLock/OnceLock/atomic operation of the library is announced to the simulator; with it off only the lazy cache mutex is (hook H1). A task that blocks on a primitive the simulator does not see is detected by a watchdog, marked lost and the run continues (counter sched.lost_task_events, 0 on the unchanged tree)".into(),
             "solitary results come from the real library on a fresh parser".into(),
         ]
     }
